@@ -17,7 +17,20 @@ if [ ! -x "$OUT/drv" ]; then
     asan) FL="-O1 -g -fsanitize=address,undefined -fno-sanitize-recover=all -fno-omit-frame-pointer" ;;
     plain) FL="-O1 -g" ;;
     tsan) FL="-O1 -g -fsanitize=thread" ;;
+    fault) FL="-O0 -g" ;;
   esac
+  if [ "$V" = fault ]; then
+    # the library's own allocation requests are redirected at compile time (no source change)
+    LDEFS="-Dmalloc=lc_malloc -Dcalloc=lc_calloc -Drealloc=lc_realloc -Dstrdup=lc_strdup"
+    OBJS=""
+    for f in $SRC; do
+      o="$OUT/$(basename $f .c).o"
+      gcc $FL $DEFS $LDEFS -I"$REPO/lib" -c "$f" -o "$o" 2>>"$OUT/build.log" || { cat "$OUT/build.log" >&2; rm -rf "$OUT"; exit 3; }
+      OBJS="$OBJS $o"
+    done
+    SRC="$OBJS"
+    DEFS="$DEFS -DDRV_FAULT"
+  fi
   gcc $FL $DEFS -I"$REPO/lib" -o "$OUT/drv.tmp" "$VERIF/harness/drv.c" $SRC -lpthread -Wl,--wrap=fopen,--wrap=fclose,--wrap=fsync 2>"$OUT/build.log" || { cat "$OUT/build.log" >&2; rm -rf "$OUT"; exit 3; }
   mv "$OUT/drv.tmp" "$OUT/drv"
   # keep only the 6 most recent cached builds per variant
